@@ -126,6 +126,11 @@ func Scratch() string {
 	if d == "" {
 		d = filepath.Join(os.TempDir(), "verif-scratch-"+strconv.Itoa(os.Getpid()))
 	}
+	if os.Getenv("VERIF_FUZZING") != "" {
+		// native fuzzing runs one coordinator and several worker processes of the same binary
+		// in the same directory: each gets its own scratch space
+		d = filepath.Join(d, "p"+strconv.Itoa(os.Getpid()))
+	}
 	_ = os.MkdirAll(d, 0o755)
 	return d
 }
